@@ -20,7 +20,7 @@ CONSTANTS
  MaxBlockTxs = 2
  MaxReorgTxs = 1
  Standalone = FALSE
- DisconnectEvicts = FALSE
+ DisconnectEvicts = TRUE
  Script <- U_Script
 INIT Init
 NEXT Next
